@@ -146,6 +146,9 @@ class Ctx:
                 return
         if any(v["key"] == key for v in self.violations):
             return
+        if len(self.violations) >= 12:   # keep the report readable: further violations are only counted
+            self.suppressed = getattr(self, "suppressed", 0) + 1
+            return
         replay = dict(replay)
         replay.update({"property": self.pid, "key": key, "what": what, "seed": self.seed,
                        "tier": self.tier, "found_input": found_input,
@@ -189,6 +192,7 @@ class Ctx:
             "input_distribution": self.hist,
             "obligation_list": [{"name": o["name"], "ok": o["ok"]} for o in self.obligations],
             "known_findings_hit": self.known_hits,
+            "violations_not_printed": getattr(self, "suppressed", 0),
         }
         cov.update(self.extra)
         ev = {
